@@ -228,6 +228,29 @@ def c13_for_continue_chain(n: int, l1: int, o1: int, l2: int) -> bool:
     return finish(out == exp)
 
 
+T_CONT3 = _t("{% for i in xs limit: l1 %}a{{ i }}{% endfor %}|{% for i in xs limit: l2 %}b{{ i }}{% else %}E{% endfor %}|{% for i in xs offset: continue %}c{{ i }}{% endfor %}|"
+             "{% for i in xs limit: l1 offset: continue %}d{{ i }}{% endfor %}")
+
+
+def c13_for_continue_restart(n: int, l1: int, l2: int) -> bool:
+    """
+    pre: 0 <= n <= 4
+    post: _
+    """
+    # a loop without offset starts again from 0 and records where IT stopped (also when that is position 0): the next
+    # offset: continue loop goes on from there, not from where an earlier loop over the same key had stopped
+    if excluded("c13_for_continue_restart", locals()):
+        return True
+    out = render(T_CONT3, xs=list(range(n)), l1=l1, l2=l2)
+    a = ref_indices(n, l1, 0, False)
+    bb = ref_indices(n, l2, 0, False)
+    c = ref_indices(n, None, len(bb), False)
+    d = ref_indices(n, l1, len(bb) + len(c), False)
+    exp = ("".join("a%d" % i for i in a) + "|" + ("".join("b%d" % i for i in bb) if bb else "E") + "|" + "".join("c%d" % i for i in c) + "|"
+           + "".join("d%d" % i for i in d))
+    return finish(out == exp)
+
+
 def c13_for_continue_keys(n: int, l1: int) -> bool:
     """
     pre: 0 <= n <= 4
@@ -632,6 +655,7 @@ CONDITIONS = [
     {"fn": "c13_for_scalar", "quick": 30, "thorough": 60, "float": True},
     {"fn": "c13_for_nested", "quick": 60, "thorough": 240},
     {"fn": "c13_for_nested3", "quick": 40, "thorough": 120},
+    {"fn": "c13_for_continue_restart", "quick": 60, "thorough": 200},
     {"fn": "c13_tablerow_cols", "quick": 60, "thorough": 300},
     {"fn": "c13_tablerow_nocols", "quick": 40, "thorough": 180},
     {"fn": "c13_tablerow_badcols", "quick": 40, "thorough": 120},
